@@ -1036,6 +1036,9 @@ func runMint(c MintJS, cw *hlib.CaseWriter, rep *hlib.Report) {
 	if *usedGas != params.TxGas+uint64(created)*params.CallValueTransferGas || out.TotalEtxGas != *usedGas || gp.Gas() != c.PoolGas-*usedGas {
 		rep.Fail("mint:gas-accounting", fmt.Sprintf("usedGas %d totalEtxGas %d pool %d for %d outputs", *usedGas, out.TotalEtxGas, gp.Gas(), created), c)
 	}
+	if *usedGas > c.Gas {
+		rep.Fail("mint:gas-beyond-etx-limit", fmt.Sprintf("the conversion consumed %d gas, its ETX carries only %d", *usedGas, c.Gas), c)
+	}
 	wantUsed := *usedGas
 	if !ok {
 		wantUsed = c.Gas
@@ -1188,6 +1191,9 @@ func runRevertQi(c RevertJS, cw *hlib.CaseWriter, rep *hlib.Report) {
 	}
 	if *usedGas != uint64(created)*params.CallValueTransferGas || out.TotalEtxGas != *usedGas || gp.Gas() != c.PoolGas-*usedGas || rc.GasUsed != *usedGas {
 		rep.Fail("revert-qi:gas-accounting", fmt.Sprintf("usedGas %d totalEtxGas %d receipt %d for %d outputs", *usedGas, out.TotalEtxGas, rc.GasUsed, created), c)
+	}
+	if *usedGas > c.Gas {
+		rep.Fail("revert-qi:gas-beyond-etx-limit", fmt.Sprintf("the refund consumed %d gas, its ETX carries only %d", *usedGas, c.Gas), c)
 	}
 	if created > 1 {
 		rep.Nontrivial(fmt.Sprintf("revert-qi/%s/%d", c.Value, created))
